@@ -346,7 +346,7 @@ def _writer(ctx: Ctx, spec: str, reader_finaliser: str) -> None:
     ctx.check(bool(up.args) and isinstance(up.args[0], ast.Name) and up.args[0].id == bytes_var, "RF-TABLE", f"{short}:uploads-the-hashed-stream", fi, up,
               ok=f"the uploaded payload is `{bytes_var}` (the hashed stream or its compression)", bad="the uploaded payload is not the stream whose digest goes into the pointer")
     # compression announced
-    comp = [d for d in other_defs if isinstance(d.value, ast.Call)]
+    comp = list(other_defs)  # every later rebinding of the payload variable (the compressed form, directly or through a local)
     if comp:
         ce = [k.value for k in up.keywords if k.arg == "content_encoding"]
         ce_defs = []
@@ -362,6 +362,16 @@ def _writer(ctx: Ctx, spec: str, reader_finaliser: str) -> None:
         ctx.check(ok, "RF-TABLE", f"{short}:compression-announced", fi, up,
                   ok="whenever the payload is compressed the upload is given its content_encoding (the fetcher decodes before hashing)",
                   bad="a compressed payload can be uploaded without content_encoding: the fetcher hashes compressed bytes and rejects it")
+        # ... and conversely: the encoding is announced only for bytes that really were replaced by their compression
+        # (an upload labelled zstd/gzip but carrying the plain stream cannot be decoded by the fetcher)
+        if ce_defs:
+            comp_done = {i for d in comp for i in cfg.done(d)}
+            plain = cfg.reach({cfg.entry}, comp_done)
+            mislabeled = [e for e in ce_defs if (cfg.attempt(e) & plain) and (cfg.reach(cfg.done(e), comp_done, include_start=False) & cfg.attempt(up))]
+            ctx.check(not mislabeled, "RF-TABLE", f"{short}:announced-encoding-means-compressed", fi, mislabeled[0] if mislabeled else up,
+                      ok="on every path on which content_encoding is set, the uploaded payload was replaced by its compressed form",
+                      bad=f"`{txt(mislabeled[0]) if mislabeled else ''}` labels the upload as compressed on a path where `{bytes_var}` still holds the plain stream: the fetcher tries to decode "
+                      "uncompressed bytes and the externalised batch cannot be resolved (offload is no longer transparent)")
     # metadata preserved in the serialized stream
     with_block = [w for w in walk_scope(fi.node) if isinstance(w, ast.With) and any(i.context_expr is st for i in w.items)]
     wb = one(with_block, "with new_ipc_stream(...) block", fi)
